@@ -35,7 +35,7 @@ ConfigOk(r) ==
   /\ r.geom \in {"Cylindrical", "BlocksOnCylindrical", "Generic"}
   /\ (Discrete(cc) => ~r.arc /\ r.span = 1 /\ ~r.ge /\ r.mash = 1 /\ r.tofMash = 0)
   /\ (~r.arc => r.minTang >= -(NV(cc)) + 2 /\ r.maxTang <= NV(cc) - 2)
-  /\ r.minTang <= 0 /\ r.maxTang >= 0 /\ r.minTang + r.maxTang \in {-1, 0}
+  /\ r.minTang <= 0 /\ r.maxTang >= 0          \* (ranges narrowed on a re-used object may be asymmetric)
   /\ r.numViews = NV(cc) \div cc.mash /\ r.minView = 0
   /\ r.minTof = MinTof(cc) /\ r.maxTof = MaxTof(cc)
   /\ Len(r.segs) = cc.maxSeg - cc.minSeg + 1
